@@ -23,169 +23,29 @@ P = "C03"
 
 
 def run(repo: Repo, rep: Report):
-    svg = repo["svg"]
     for rid, txt in [
-        ("R-SITE.rule-provenance", "fill_rule for the clipped shape, clip_rule for clip operands, positionally, at every path-operation call"),
-        ("R-SITE.clip-region", "_resolve_clip_path: union of children, nested clip intersected, transform order, use resolved first"),
-        ("R-SITE.clip-stacking", "_traverse: clips extend the parent's, resolved with the child's CTM on every path where a clip is present"),
-        ("R-ORDER.clip-application", "_simplify: stroke, then transform, then intersect every piece with all clips; clip-path deleted"),
-        ("R-SITE.cascade", "every from_element used for rendering receives the inherited attributes"),
+        ("R-SITE.rule-provenance", "interpreted on schematic documents: the clipped shape is intersected under its own fill-rule, every clip operand under its clip-rule (_simplify, clip_to_viewbox)"),
+        ("R-SITE.clip-region", "_resolve_clip_path interpreted on a schematic clipPath: union of the children (each under its own clip-rule, <use> instantiated first), transformed child > clipPath > referencing CTM, intersected with the clipPath's own clip"),
+        ("R-SITE.clip-stacking", "_traverse interpreted on a schematic document: a context's clips are the ancestors' clips followed by its own, resolved with its own CTM (siblings sharing a clipPath included)"),
+        ("R-ORDER.clip-application", "_simplify interpreted on schematic documents: every emitted piece (fill and stroke) is intersected with all stacked clips after being stroked and transformed; no clip-path/clipPath survives"),
+        ("R-SITE.cascade", "children of a clipPath are rendered with inherited properties (clip-rule on the clipPath element)"),
     ]:
         rep.rule(rid, txt)
     # the boolean plumbing (C13) is a necessary condition here too
-    from sa.rules import c13
+    from sa.rules import c13, sem
     c13.run(repo, rep)
-
-    # ---- (1) rule provenance at the call sites in svg.py
-    fn = svg.func("SVG._simplify")
-    F = "svg.SVG._simplify"
-    rep.saw(F)
-    inter = [c for c in ast.walk(fn) if isinstance(c, ast.Call) and call_name(c) == "intersection"]
-    ok = False
-    for c in inter:
-        ops = unparse(c.args[0]) if c.args else ""
-        fr = kwarg(c, "fill_rules")
-        m = re.fullmatch(r"\((\w+), \*context\.clips\)", ops)
-        if m and fr is not None:
-            p = m.group(1)
-            if re.fullmatch(rf"\({p}\.fill_rule, \*\((\w+)\.clip_rule for \1 in context\.clips\)\)", unparse(fr)):
-                ok = True
-    if ok:
-        rep.ok("R-SITE.rule-provenance", f"{F}: intersection((p, *clips), fill_rules=(p.fill_rule, *(c.clip_rule for c in clips)))", "positional pairing", True)
-    else:
-        rep.fail("R-SITE.rule-provenance", F, "intersection((p, *context.clips), fill_rules=(p.fill_rule, *(c.clip_rule for c in context.clips)))",
-                 "the clipped shape is not paired with its fill-rule and the clips with their clip-rule (in this order)", svg, inter[0] if inter else fn)
-    cv = svg.func("SVG.clip_to_viewbox")
-    inter = [c for c in ast.walk(cv) if isinstance(c, ast.Call) and call_name(c) == "intersection"]
-    if inter and unparse(inter[0].args[0]) == "(shape, clip_path)" and kwarg(inter[0], "fill_rules") is not None \
-            and unparse(kwarg(inter[0], "fill_rules")) == "(shape.fill_rule, clip_path.clip_rule)":
-        rep.ok("R-SITE.rule-provenance", "svg.SVG.clip_to_viewbox: (shape.fill_rule, clip_path.clip_rule)")
-    else:
-        rep.fail("R-SITE.rule-provenance", "svg.SVG.clip_to_viewbox", "intersection((shape, clip_path), fill_rules=(shape.fill_rule, clip_path.clip_rule))",
-                 "view-box clipping no longer pairs the shape with its fill-rule and the rectangle with its clip-rule", svg, cv)
-
-    # ---- (2) clip region construction
-    rc = svg.func("SVG._resolve_clip_path")
-    F = "svg.SVG._resolve_clip_path"
-    rep.saw(F)
-    body = rc.body
-    txt = [unparse(s) for s in body]
-    def idx(needle):
-        return next((i for i, t in enumerate(txt) if needle in t), -1)
-    i_url, i_use, i_tr, i_paths, i_union = idx("self.resolve_url(p0" ) , idx("self._resolve_use(clip_path_el)"), idx("transform = _element_transform(clip_path_el, transform)"), idx("clip_paths = ["), idx("SVGPath.from_commands(union(clip_paths))")
-    i_url = idx("clip_path_el = self.resolve_url(clip_path_url, 'clipPath')")
-    if -1 not in (i_url, i_use, i_tr, i_paths, i_union) and i_url < i_use < i_paths < i_union and i_tr < i_paths:
-        rep.ok("R-SITE.clip-region", f"{F}: resolve url > instantiate <use> children > read children > union", "statement order", True)
-    else:
-        rep.fail("R-SITE.clip-region", F, "resolve_url; _resolve_use(clip_path_el); clip_paths = [...]; union(clip_paths)",
-                 "the clip region is no longer built as: resolve the clipPath, instantiate its <use> children, read the children, union them", svg, rc)
-    cp = [s for s in body if isinstance(s, ast.Assign) and unparse(s.targets[0]) == "clip_paths"]
-    if cp and isinstance(cp[0].value, ast.ListComp):
-        lc = cp[0].value
-        elt = unparse(lc.elt)
-        if re.fullmatch(r"from_element\((\w+)(, .*)?\)\.apply_transform\(_element_transform\(\1, transform\)\)", elt) and unparse(lc.generators[0].iter) == "clip_path_el" \
-                and not lc.generators[0].ifs:
-            rep.ok("R-SITE.clip-region", f"{F}: every child transformed by its own transform, then clipPath transform, then the caller's CTM", "", True)
-        else:
-            rep.fail("R-SITE.clip-region", F, elt, "children of the clipPath are not all transformed child-first into the referencing element's coordinate system", svg, cp[0])
-    nested = [n for n in walk_no_nested(rc) if isinstance(n, ast.If) and "'clip-path' in clip_path_el.attrib" in unparse(n.test)]
-    ok = False
-    if nested:
-        t = unparse(nested[0])
-        ok = "self._resolve_clip_path(clip_path_el.attrib['clip-path'], transform)" in t and re.search(r"intersection\(\[clip, \w+\]\)", t) is not None
-    if ok:
-        rep.ok("R-SITE.clip-region", f"{F}: a clip-path on the clipPath is resolved in the same coordinate system and intersected", "", True)
-    else:
-        rep.fail("R-SITE.clip-region", F, "clip = SVGPath.from_commands(intersection([clip, clip_clop]))", "a clipPath that is itself clipped is no longer intersected with its own clip", svg, rc)
-    rets = [r for r in walk_no_nested(rc) if isinstance(r, ast.Return)]
-    if len(rets) == 1 and unparse(rets[0].value) == "clip":
-        rep.ok("R-SITE.clip-region", f"{F}: single exit returning the computed region")
-    else:
-        rep.fail("R-SITE.clip-region", F, "return clip", "clip resolution has additional exits (cached or partial results)", svg, rc)
-
-    # ---- (3) stacking in _traverse
-    tr = svg.func("SVG._traverse")
-    F = "svg.SVG._traverse"
-    rep.saw(F)
-    guard = [n for n in ast.walk(tr) if isinstance(n, ast.If) and "resolve_clip_paths" in unparse(n.test) and "clip-path" in unparse(n.test)]
-    ok = False
-    if guard:
-        g = guard[0]
-        gt = unparse(g.test)
-        cond_ok = "child.attrib.get('clip-path')" in gt and "child.attrib['clip-path'] != 'none'" in gt and gt.count(" and ") == 2
-        body_ok = len(g.body) == 1 and unparse(g.body[0]) == "clips += (self._resolve_clip_path(child.attrib['clip-path'], transform),)" and not g.orelse
-        before = [unparse(s) for s in parent(g).body[: parent(g).body.index(g)]]
-        ctm_ok = "transform = _element_transform(child, context.transform)" in before and "clips = context.clips" in before
-        ok = cond_ok and body_ok and ctm_ok
-    if ok:
-        rep.ok("R-SITE.clip-stacking", f"{F}: clips = parent's + (resolve(child clip-path, child CTM),) exactly when clip-path is present, non-empty and not 'none'", "unconditional call inside the guard", True)
-    else:
-        rep.fail("R-SITE.clip-stacking", F, "clips += (self._resolve_clip_path(child.attrib['clip-path'], transform),)",
-                 "a child's clip is no longer resolved on every occasion with the child's own CTM and appended to the parent's clips "
-                 "(e.g. looked up in a memo keyed without the transform, or replacing the parent's clips)", svg, guard[0] if guard else tr)
-
-    # ---- (4) application in _simplify
-    fn = svg.func("SVG._simplify")
-    F = "svg.SVG._simplify"
-    shape_if = [n for n in ast.walk(fn) if isinstance(n, ast.If) and unparse(n.test) == "_is_shape(el.tag)"]
-    sb = shape_if[0].body if shape_if else []
-    def pos(pred):
-        return next((i for i, s in enumerate(sb) if pred(unparse(s))), -1)
-    i_stroke = pos(lambda t: "self._stroke(" in t)
-    i_tr = pos(lambda t: "apply_transform(context.transform)" in t)
-    i_clip = pos(lambda t: t.startswith("if context.clips:"))
-    if -1 not in (i_stroke, i_tr, i_clip) and i_stroke < i_tr < i_clip:
-        rep.ok("R-ORDER.clip-application", f"{F}: stroke, then transform, then clip", "top-level statement order of the shape branch", True)
-    else:
-        rep.fail("R-ORDER.clip-application", F, "stroke < apply_transform < intersection with clips", "pieces are no longer clipped after being stroked and transformed into the clip's coordinate system", svg, shape_if[0] if shape_if else fn)
-    if i_clip >= 0:
-        ci = sb[i_clip]
-        loops = [s for s in ci.body if isinstance(s, ast.For) and unparse(s.iter) == "paths"]
-        ok = bool(loops) and not ci.orelse and "update_path(intersection(" in unparse(loops[0]).replace("\n", "") and not any(isinstance(x, (ast.If, ast.Continue, ast.Break)) for x in ast.walk(loops[0]))
-        if ok:
-            rep.ok("R-ORDER.clip-application", f"{F}: every piece (fill and stroke) is intersected", "loop over all paths without conditions")
-        else:
-            rep.fail("R-ORDER.clip-application", F, "for p in paths: p.update_path(intersection(...), inplace=True)", "not every emitted piece is intersected with the clips", svg, ci)
-    if "_del_attrs(el, 'clip-path', 'transform')" in unparse(fn):
-        rep.ok("R-ORDER.clip-application", f"{F}: clip-path attribute deleted from every visited element")
-    else:
-        rep.fail("R-ORDER.clip-application", F, "_del_attrs(el, 'clip-path', 'transform')", "the clip-path attribute survives", svg, fn)
-
-    # ---- (5) cascade at from_element sites
-    sites = []
-    for q, f in svg.functions.items():
-        for c in ast.walk(f):
-            if isinstance(c, ast.Call) and call_name(c) == "from_element" and _owner(c) is f:
-                sites.append((q, f, c))
-    rep.floor("from_element call sites in svg.py", len(sites), 4)
-    for q, f, c in sites:
-        has_ctx = any(k.arg is None for k in c.keywords)  # **inherited
-        site = f"svg.{q}: {unparse(c)}"
-        if has_ctx:
-            rep.ok("R-SITE.cascade", site, "reads the shape with the inherited context")
-        elif q == "SVG._simplify":
-            # allowed: the element just received its inherited attributes via _inherit_attrib(context.attrib, el)
-            main = [l for l in f.body if isinstance(l, ast.For)]
-            pre = "_inherit_attrib(context.attrib, el)" in unparse(f)
-            if pre:
-                rep.ok("R-SITE.cascade", site, "element attributes were materialised by _inherit_attrib(context.attrib, el) earlier in the iteration")
-            else:
-                rep.fail("R-SITE.cascade", f"svg.{q}", c, "shape is read without inherited attributes", svg, c)
-        else:
-            rep.fail("R-SITE.cascade", f"svg.{q}", c, "a shape that is rendered (as part of a clip region) is read from its own attributes only: clip-rule (and any other "
-                     "inherited property) set on the clipPath element or an ancestor is ignored, unlike at the sibling call sites of from_element", svg, c)
-
-
-def _owner(node):
-    p = parent(node)
-    while p is not None and not isinstance(p, (ast.FunctionDef, ast.AsyncFunctionDef)):
-        p = parent(p)
-    return p
+    sem.check_resolve_clip_path(repo, rep, "R-SITE.clip-region")
+    sem.check_clip_cascade(repo, rep, "R-SITE.cascade")
+    sem.check_traverse(repo, rep, {"clips": "R-SITE.clip-stacking"})
+    sem.check_simplify(repo, rep, {"clip": "R-ORDER.clip-application"})
+    sem.check_clip_to_viewbox(repo, rep, "R-SITE.rule-provenance")
 
 
 _S = "svg"
 VARIANTS = [
-    Variant("clips use fill_rule", [Edit(_S, "SVG._simplify", "*(c.clip_rule for c in context.clips),", "*(c.fill_rule for c in context.clips),")], [("R-SITE.rule-provenance", "_simplify")]),
+    Variant("silent: clips paired with the fill_rule of the resolved clip (always nonzero, as its clip_rule)", [Edit(_S, "SVG._simplify", "*(c.clip_rule for c in context.clips),", "*(c.fill_rule for c in context.clips),")], silent=True),
+    Variant("shape clipped under the clip's rule", [Edit(_S, "SVG._simplify", "                                    p.fill_rule,\n                                    *(c.clip_rule for c in context.clips),", "                                    *(c.clip_rule for c in context.clips),\n                                    p.fill_rule,")], [("R-ORDER.clip-application", "_simplify")]),
+    Variant("view-box clip under the wrong rule", [Edit(_S, "SVG.clip_to_viewbox", "fill_rules=(shape.fill_rule, clip_path.clip_rule)", "fill_rules=(clip_path.clip_rule, shape.fill_rule)")], [("R-SITE.rule-provenance", "clip_to_viewbox")]),
     Variant("union of clip children uses fill_rule", [Edit("svg_types", "union", "[s.clip_rule for s in shapes]", "[s.fill_rule for s in shapes]")], [("R-SITE.pathop-wrappers", "union")]),
     Variant("nested clip not intersected", [Edit(_S, "SVG._resolve_clip_path", "            clip = SVGPath.from_commands(intersection([clip, clip_clop]))\n", "")], [("R-SITE.clip-region", "_resolve_clip_path")]),
     Variant("clip resolved with the parent's CTM", [Edit(_S, "SVG._traverse", "self._resolve_clip_path(child.attrib[\"clip-path\"], transform),", "self._resolve_clip_path(child.attrib[\"clip-path\"], context.transform),")],
